@@ -53,7 +53,8 @@ RegCases == UNION {{[part |-> "register", kind |-> k, format |-> f, ver |-> v, e
 ObjKinds == {"SymmetricKey", "PrivateKey", "PublicKey", "SecretData", "Certificate", "OpaqueObject", "Template", "SplitKey", "PGPKey"}
 \* "empty-value" / "short-value": the parameters of the format (curve, modulus) are valid, the value itself (point, private value, key
 \* bytes) is empty / one byte long
-Missing == {"none", "keyvalue", "plain", "material", "wrong-variant", "component", "wrapped", "empty-value", "short-value"}
+\* "wrapped-bare": a wrapped key value (byte string) without the optional Key Wrapping Data
+Missing == {"none", "keyvalue", "plain", "material", "wrong-variant", "component", "wrapped", "wrapped-bare", "empty-value", "short-value"}
 KFTs == {"Raw", "PKCS_1", "PKCS_8", "X_509", "ECPrivateKey", "TransparentSymmetricKey", "TransparentRSAPrivateKey", "TransparentRSAPublicKey",
          "TransparentECDSAPrivateKey", "TransparentECDSAPublicKey", "TransparentECPrivateKey", "TransparentECPublicKey", "Opaque"}
 Accessors == {"SecretString", "Secret", "SymmetricKey", "X509Certificate", "PemCertificate", "RsaPrivateKey", "EcdsaPrivateKey", "PrivateKey",
